@@ -415,6 +415,7 @@ func TestCheck(t *testing.T) {
 				packagesBody(r, rep, "packages", pcases[i-len(icases)])
 			}},
 			{Name: "abort-and-repeat/" + tier, Bound: 1, Wrap: wrap, Body: func(r *explore.Run) { faultBody(r, rep, "abort-and-repeat", fcases, th) }},
+			{Name: "installer-faults/" + tier, Bound: 1, Wrap: wrap, Body: func(r *explore.Run) { installerFaultBody(r, rep, "installer-faults", installerCases()) }},
 		}
 	}
 	scs := scenarios(th)
